@@ -224,3 +224,80 @@ def xy_grid(desc):
     if any(p is None for _, _, _, p in att):
         return None
     return (m, n, att)
+
+
+# ---------------------------------------------------------------------------------------------- AXI side (C08)
+def type_name(p):
+    prefix = p["type_prefix"] if "type_prefix" in p else "axi"
+    return f"{prefix}_{p['name']}" if prefix is not None else p["name"]
+
+
+def axi_expect(desc):
+    """(ports, ni expectations, axi cfg records) the description implies, per the C08 property text"""
+    protos = {p["name"]: p for p in desc["protocols"]}
+    nw = desc["network_type"] != "axi"
+    ports, nis = [], []
+    used_in, used_out = [], []
+    for ep in desc["endpoints"]:
+        sh = shape(ep)
+        dims = [x for x in (sh or []) if x != 1]
+        for pn in ep.get("mgr_port_protocol") or []:
+            t = type_name(protos[pn])
+            ports.append(["input", t + "_req_t", dims, f"{ep['name']}_{pn}_req_i"])
+            ports.append(["output", t + "_rsp_t", dims, f"{ep['name']}_{pn}_rsp_o"])
+            used_in.append(pn)
+        for pn in ep.get("sbr_port_protocol") or []:
+            t = type_name(protos[pn])
+            ports.append(["output", t + "_req_t", dims, f"{ep['name']}_{pn}_req_o"])
+            ports.append(["input", t + "_rsp_t", dims, f"{ep['name']}_{pn}_rsp_i"])
+            used_out.append(pn)
+    eps = {e["name"]: e for e in desc["endpoints"]}
+    for inst in instances(desc):
+        ep = eps[inst["ep"]]
+        sh = shape(ep)
+        idx = "".join(f"[{i}]" for i, d in zip(inst["idx"], sh or []) if d != 1)
+
+        def pick(role, kind):
+            lst = ep.get(role) or []
+            sel = [p for p in lst if (not nw) or protos[p].get("type") == kind]
+            return sel[-1] if sel else None
+
+        def bind(prefix, mgr, sbr):
+            b = []
+            if mgr is not None:
+                b += [[f"{prefix}in_req_i", f"{ep['name']}_{mgr}_req_i{idx}"], [f"{prefix}in_rsp_o", f"{ep['name']}_{mgr}_rsp_o{idx}"]]
+            else:
+                b += [[f"{prefix}in_req_i", "'0"], [f"{prefix}in_rsp_o", "open"]]
+            if sbr is not None:
+                b += [[f"{prefix}out_req_o", f"{ep['name']}_{sbr}_req_o{idx}"], [f"{prefix}out_rsp_i", f"{ep['name']}_{sbr}_rsp_i{idx}"]]
+            else:
+                b += [[f"{prefix}out_req_o", "open"], [f"{prefix}out_rsp_i", "'0"]]
+            return b
+
+        if nw:
+            mn, sn = pick("mgr_port_protocol", "narrow"), pick("sbr_port_protocol", "narrow")
+            mw, sw = pick("mgr_port_protocol", "wide"), pick("sbr_port_protocol", "wide")
+            flags = [["ChimneyCfgN", sn is not None, mn is not None], ["ChimneyCfgW", sw is not None, mw is not None]]
+            axi = bind("axi_narrow_", mn, sn) + bind("axi_wide_", mw, sw)
+        else:
+            mp, sp = pick("mgr_port_protocol", None), pick("sbr_port_protocol", None)
+            flags = [["ChimneyCfg", sp is not None, mp is not None]]
+            axi = bind("axi_", mp, sp)
+        nis.append([inst["ni"], flags, axi, camel(inst["enum"])])
+
+    def first(kind, used):
+        for p in desc["protocols"]:
+            if p["name"] in used and ((not nw) or p.get("type") == kind):
+                return p
+        return None
+
+    def cfg(name, kind):
+        i, o = first(kind, used_in), first(kind, used_out)
+        if i is None or o is None:
+            return None
+        return [name, [["AddrWidth", i["addr_width"]], ["DataWidth", i["data_width"]], ["UserWidth", i["user_width"]],
+                       ["InIdWidth", i["id_width"]], ["OutIdWidth", o["id_width"]]]]
+    cfgs = [cfg("AxiCfgN", "narrow"), cfg("AxiCfgW", "wide")] if nw else [cfg("AxiCfg", None)]
+    if any(c is None for c in cfgs):
+        return None
+    return ports, nis, cfgs
